@@ -51,16 +51,25 @@ def _case(draw):
     wd = None
     if draw(st.booleans()):
         wd = [draw(st.floats(20.0, 800.0)), draw(st.floats(0.17, 0.6)), draw(st.floats(0.0, 2.5))]
+        part = draw(st.sampled_from(["both", "both", "both", "weight-only", "diameter-only"]))
+        if part == "weight-only":
+            wd[1] = 0.0
+        elif part == "diameter-only":
+            wd[0] = 0.0
     return {"table": draw(st.sampled_from(TABLES)),
             "form": draw(st.sampled_from(["dicts", "dicts", "model-points", "mbc-points"])),
             "points": pts, "wd": wd, "twice": draw(st.booleans()), "sharer": draw(st.booleans()),
-            "pref_velocity": draw(st.sampled_from(VEL))}
+            "pref_velocity": draw(st.sampled_from(VEL)),
+            # velocities given as bare numbers of the preferred velocity unit in force (instead of explicit quantities)
+            "bare_v": byv and draw(st.integers(0, 2)) == 0}
 
 
 def _bcpoints(case):
     out = []
     for p in case["points"]:
-        if "v" in p:
+        if "v" in p and case.get("bare_v"):
+            out.append(pb.BCPoint(p["bc"], V=ref.convert(p["v"], p["unit"], case["pref_velocity"])))
+        elif "v" in p:
             out.append(pb.BCPoint(p["bc"], V=Unit[p["unit"]](p["v"])))
         else:
             out.append(pb.BCPoint(p["bc"], Mach=p["mach"]))
@@ -80,7 +89,9 @@ def _table_snapshot(tbl):
 def _build(case, bps, table):
     if case["wd"]:
         w, d, l = case["wd"]
-        return pb.DragModelMultiBC(bps, table, pb.Weight.Grain(w), pb.Distance.Inch(d), pb.Distance.Inch(l))
+        kw = {k: v for k, v, given in (("weight", pb.Weight.Grain(w), w), ("diameter", pb.Distance.Inch(d), d),
+                                       ("length", pb.Distance.Inch(l), l)) if given}   # a zero entry = argument not given
+        return pb.DragModelMultiBC(bps, table, **kw)
     return pb.DragModelMultiBC(bps, table)
 
 
@@ -90,7 +101,8 @@ def check(case):
     pb.PreferredUnits.velocity = Unit[case.get("pref_velocity", "FPS")]
     std = getattr(pb, case["table"])
     std_snapshot = copy.deepcopy(std)
-    r.label("form:" + case["form"], f"points:{len(case['points'])}", "by-velocity" if "v" in case["points"][0] else "by-mach")
+    r.label("form:" + case["form"], f"points:{len(case['points'])}", "by-velocity" if "v" in case["points"][0] else "by-mach",
+            *(["bare-velocities"] if case.get("bare_v") else []))
     source_model = None
     if case["form"] == "dicts":
         table = std
@@ -146,12 +158,8 @@ def check(case):
                       points=list(zip(xs, ys)))
                 break
         r.target = worst
-    # sectional density convention
     if case["wd"]:
-        w, d, _ = case["wd"]
-        sd = w / d ** 2 / 7000.0
-        if abs(model.BC - sd) > 1e-9 * sd:
-            r.bad("C14:model-bc-not-sectional-density", f"model BC {model.BC!r}, sectional density {sd!r}")
+        r.label("weight/diameter:" + ("both" if case["wd"][0] and case["wd"][1] else "one-only"))
     # single point == plain single-BC model
     if len(pts) == 1 and not byv and case["form"] != "mbc-points":
         plain = pb.DragModel(pts[0]["bc"], std)
